@@ -9106,9 +9106,17 @@ func (p *parser) visitStmts(stmts []js_ast.Stmt, kind stmtsKind) []js_ast.Stmt {
 			// means neither identifier can be renamed to something else. So in that
 			// case we give up and do not preserve the semantics of the original code.
 			// The same applies if the function is referenced from inside a "with"
-			// statement, which also means that its name must be kept.
-			if p.currentScope.ContainsDirectEval || p.symbols[s.Fn.Name.Ref.InnerIndex].Flags.Has(ast.MustNotBeRenamed) {
-				if hoistedRef, ok := p.hoistedRefForSloppyModeBlockFn[s.Fn.Name.Ref]; ok {
+			// statement, which also means that its name must be kept. It also
+			// applies if the hoisted variable must keep its name because the
+			// hoisting goes past a "with" statement (the generated assignment to
+			// the variable would be captured by the "with" object) or reaches the
+			// implicit "arguments" binding.
+			hoistedRef, hasHoistedRef := p.hoistedRefForSloppyModeBlockFn[s.Fn.Name.Ref]
+			if p.currentScope.ContainsDirectEval || p.symbols[s.Fn.Name.Ref.InnerIndex].Flags.Has(ast.MustNotBeRenamed) ||
+				(hasHoistedRef && p.symbols[hoistedRef.InnerIndex].Flags.Has(ast.MustNotBeRenamed)) {
+				if hasHoistedRef {
+					p.symbols[s.Fn.Name.Ref.InnerIndex].Flags |= ast.MustNotBeRenamed
+
 					// If the hoisted variable was merged into another declaration of
 					// the enclosing function, that declaration must keep the same name
 					// as this function for the hoisting to still work at run time. The
